@@ -1296,7 +1296,10 @@ namespace bluetoe {
                 // a service is within the requested range, if the handle of its service declaration is
                 const std::uint16_t service_handle = details::handle_index_mapping< Server >::handle_by_index( index_ );
 
-                if ( !stoped_ && starting_handle_ <= service_handle && service_handle <= ending_handle_ )
+                // secondary services are not discoverable as primary services
+                const bool is_primary = Server::attribute_at( index_ ).uuid == bits( details::gatt_uuids::primary_service );
+
+                if ( !stoped_ && is_primary && starting_handle_ <= service_handle && service_handle <= ending_handle_ )
                 {
                     if ( first_ )
                     {
@@ -1591,7 +1594,8 @@ namespace bluetoe {
                 {
                     const details::attribute& attr = Server::attribute_at( index_ );
 
-                    if ( filter_( index_, attr ) )
+                    // secondary services are not discoverable as primary services
+                    if ( attr.uuid == bits( details::gatt_uuids::primary_service ) && filter_( index_, attr ) )
                     {
                         found_ = iterator_.template operator()< Service >(
                             mapping::handle_by_index( index_ ),
